@@ -440,6 +440,8 @@ func (d *DB) CanonicalDump() (string, error) {
 		{"pn_winners", `SELECT height, position, hex(entryhash), hex(oprhash), payout, grade, hex(nonce), hex(difficulty), minerid, address FROM pn_winners ORDER BY height, position`},
 		{"pn_bank", `SELECT height, bank_amount, bank_used, total_requested FROM pn_bank ORDER BY height`},
 		{"pn_holding", `SELECT hex(entry_hash), hex(entry_data), height, hex(eblock_keymr), unix_timestamp FROM pn_transaction_batch_holding ORDER BY id`},
+		{"pn_holding_core", `SELECT hex(entry_hash), height FROM pn_transaction_batch_holding ORDER BY id`},
+		{"pn_history_txbatch_core", `SELECT hex(entry_hash), height, executed FROM pn_history_txbatch ORDER BY height, entry_hash`},
 		{"pn_address_transactions", `SELECT hex(entry_hash), hex(address), tx_index, "to", conversion FROM pn_address_transactions ORDER BY entry_hash, address`},
 		{"pn_history_txbatch", `SELECT hex(entry_hash), height, blockorder, timestamp, executed FROM pn_history_txbatch ORDER BY history_id`},
 		{"pn_history_transaction", `SELECT hex(entry_hash), tx_index, action_type, hex(from_address), from_asset, from_amount, to_asset, to_amount, outputs FROM pn_history_transaction ORDER BY entry_hash, tx_index`},
